@@ -197,6 +197,19 @@ func (c10) Build(tier string, seed uint64) []any {
 			cs = append(cs, c)
 		}
 	}
+	// frames whose pixel count is around 2^16 with moderate dimensions, two per history
+	for j, ts := range c10Syntaxes {
+		g := areaSizes(true, seed)
+		sz := g[(j+int(seed))%len(g)]
+		if tier != "thorough" && (j+int(seed))%3 != 0 && ts != "rle" {
+			continue
+		}
+		r := gen.Sub(seed, "C10", "area"+ts, j)
+		c := &c10Case{Gen: "codec", TS: ts, W: sz[0], H: sz[1], Pattern: "alternate", PKind: "nil"}
+		c.BA, c.BS, c.SPP, c.PR = c10FrameInfo(r, ts)
+		c.Frames = []c10Frame{{"noise", r.U64()}, {"smooth", r.U64()}}
+		cs = append(cs, c)
+	}
 	encKinds := []string{"reversible", "irreversible", "rev-mct", "irr-mct", "layers", "roi", "ht", "custommct", "tiles", "irr-q", "rate"}
 	for i := 0; i < nEnc; i++ {
 		r := gen.Sub(seed, "C10", "encobj", i)
